@@ -416,6 +416,24 @@ func scnRecvMatrix(g *Gen, budget int, arg string) {
 				other := buildMessage(0, d, 4, 0, g.rand32(), g.otherRecipient(), make([]byte, 32), nil)
 				g.tx("ReceiveMessage", g.opReceive(g.anyAcct(), other, attOpts{}))
 			}
+			// mint recipients whose 20-byte account starts with a zero byte, or sits under non-zero padding: the account is the
+			// LOW 20 BYTES, whatever surrounds them
+			for k := 0; k < 3; k++ {
+				rcp := make([]byte, 32)
+				g.rng.Read(rcp[13:])
+				switch k {
+				case 1:
+					g.rng.Read(rcp[:12])
+					rcp[0] |= 1
+					rcp[12] = byte(1 + g.pick(255))
+				case 2:
+					rcp[12], rcp[13] = 0, 0
+				}
+				src := uint32(k % 2)
+				body := buildBurnBody(0, token(0), rcp, big.NewInt(int64(11+k)), g.rand32())
+				msg := buildMessage(0, src, 4, g.freshNonce(src), messengerAddr(src), types.PaddedModuleAddress, make([]byte, 32), body)
+				g.tx("ReceiveMessage", g.opReceive(g.anyAcct(), msg, attOpts{}))
+			}
 			for v := 0; v < 13; v++ {
 				g.forceVariant = v
 				for i := 0; i < rcN; i++ {
@@ -925,6 +943,12 @@ func scnPause(g *Gen, budget int, arg string) {
 			g.emit(Op{Kind: "query", Sub: "SendingAndReceivingMessagesPaused", KV: newKV()})
 			for f := 0; f < 8; f++ {
 				g.validFlow(f)
+			}
+			// a message for somebody who merely LOOKS like the module (every near miss of its padded address) is an ordinary
+			// message: it is received whenever receiving is not paused, burning-and-minting paused or not
+			for k := 0; k < nNearModule; k++ {
+				msg := buildMessage(0, 0, 4, g.freshNonce(0), g.rand32(), g.nearModule(k), make([]byte, 32), g.randBytes(g.pick(40)))
+				g.tx("ReceiveMessage", g.opReceive(g.anyAcct(), msg, attOpts{}))
 			}
 			// administrative actions stay available
 			for _, ti := range g.rng.Perm(len(adminTypes))[:6] {
